@@ -344,6 +344,59 @@ def run(c, chk):
     construct_before_use(c, chk, 'R1.6')
     depends_on(c, chk)
     deprecated_handling(c, chk, model)
+    section_store(c, chk, ex_)
+
+
+def section_store(c, chk, ex):
+    """R1.11: what the store does with a section that is written again: an instance of a multi section is always a newly
+    built one (a repeated title REPLACES the old instance - nothing of the old one may show through), an existing single
+    section is kept and merged into"""
+    chk.rule('R1.11', 'storing a multi section always installs a newly built instance (a repeated title replaces, nothing of the old one survives); an existing single section is kept (re-opening merges)')
+    fn = c.need('cfg_setopt')
+    nmulti = nsingle = 0
+    bad = None
+    bad2 = None
+    for p in ex.explore(fn):
+        if p.end != 'ret' or p.retval is None or p.retval == sym.C0:
+            continue
+        facts = {}
+        for cn, t, _ in p.assume:
+            d = pm.describe_cond(cn)
+            neg = d.startswith('not(')
+            if neg:
+                d = d[4:-1]
+            facts[d] = (t != neg)
+        if not any(k.endswith('->type eq SEC') and v for k, v in facts.items()) and \
+                not any(e.kind == 'store' and e.field == 'section' for e in p.events) and not any(e.kind == 'call' and e.name == 'cfg_init_defaults' for e in p.events):
+            continue
+        multi = next((v for k, v in facts.items() if k == 'opt->flags has MULTI'), None)
+        stores = [e for e in p.events if e.kind == 'store' and e.field == 'section' and sym.object_of(e.addr)[0] != 'alloca']
+        fresh = [e for e in stores if sym.root_of(e.val)[0] == 'call' and sym.root_of(e.val)[1] in ex.FRESH]
+        if multi:
+            nmulti += 1
+            if not fresh:
+                bad = bad or p
+        elif multi is False:
+            # a single section that exists already: found by the path's own test of the slot
+            exists = any(k.endswith('.section') or k.endswith('->section') for k, v in facts.items() if v)
+            if exists:
+                nsingle += 1
+                if stores or any(e.kind == 'call' and e.name == 'cfg_free' for e in p.events):
+                    bad2 = bad2 or p
+    if bad is not None:
+        chk.fail('R1.11', 'multi-section-not-rebuilt', c.where(bad.last_ins) if bad.last_ins is not None else c.where(fn),
+                 'cfg_setopt() can store a CFGF_MULTI section and succeed without installing a newly built instance (%s): when the title repeats, '
+                 'the old instance is re-used and whatever it held (list elements, options without defaults, nested sections) shows through '
+                 'instead of being replaced' % fp.cond_text(bad, 5))
+    elif nmulti:
+        chk.ok('R1.11', 'cfg_setopt: %d successful stores of a multi section' % nmulti, 'each installs an instance built on that path', sample=True)
+    if bad2 is not None:
+        chk.fail('R1.11', 'single-section-replaced', c.where(bad2.last_ins) if bad2.last_ins is not None else c.where(fn),
+                 'cfg_setopt() replaces or releases an existing single section when it is written again (%s): re-opening it must merge' % fp.cond_text(bad2, 5))
+    elif nsingle:
+        chk.ok('R1.11', 'cfg_setopt: %d stores into an existing single section' % nsingle, 'the instance is kept')
+    chk.floor('R1.11 successful stores of a multi section', nmulti, 2)
+    chk.floor('R1.11 stores into an existing single section', nsingle, 1)
 
 
 def all_const_callers(c, model):
